@@ -38,3 +38,19 @@ PROPS["C12"] = dict(level="exploration", steps=twin("^TestC12"), needs_twin=True
 PROPS["C10"] = dict(level="exploration", steps=simple("^TestC10"), assumptions=TRUST)
 PROPS["C11"] = dict(level="exploration", steps=simple("^TestC11"), assumptions=TRUST)
 PROPS["C17"] = dict(level="exploration", steps=simple("^TestC17", variant="bubble", shards_quick=4), default_variant="bubble", assumptions=TRUST + ["testing/synctest (Go 1.26.8): 'all goroutines durably blocked' detection is sound for channel operations; goroutines blocked on a mutex or in a syscall are not covered"])
+
+
+def c08_steps(tier):
+    th = tier == "thorough"
+    sh = 4 if th else 1
+    return [
+        dict(run="^TestC08", variant="bubble", shards=(12 if th else 3), journal=True),
+        dict(run="^TestC08", variant="bubble", shards=sh, journal=True, env={"GOMAXPROCS": "2", "VERIF_C08_SCALE": "30"}),
+        dict(run="^TestC08", variant="bubble", shards=sh, journal=True, env={"GOMAXPROCS": "1", "VERIF_C08_SCALE": "30"}),
+        dict(run="^TestC08", variant="race", shards=(12 if th else 3), journal=True, env={"VERIF_C08_SCALE": "40"}),
+    ]
+
+
+PROPS["C08"] = dict(level="exploration", steps=c08_steps, default_variant="bubble", assumptions=TRUST + [
+    "testing/synctest (Go 1.26.8) detects 'all goroutines durably blocked' for channel operations; schedules are sampled (hook-site delays order the goroutines, the Go scheduler chooses in between)",
+    "the Go race detector reports a race only when both accesses occur in the explored execution"])
